@@ -47,7 +47,34 @@ Faults == <<
   [t |-> Mark("function g(v) { return ", Chars("v % 0"), " } BEGIN { g(1) }"), class |-> "runtime", exact |-> FALSE],
   [t |-> Mark("BEGIN { print match (1) { 1 => ", Chars("2 / 0"), " } }"), class |-> "runtime", exact |-> FALSE],
   [t |-> Mark("BEGIN { if (", Chars("[1] == 2"), ") print 1 }"), class |-> "runtime", exact |-> FALSE],
-  [t |-> Mark("BEGIN { x = [1, 2", Chars("}"), " }"),      class |-> "syntax",  exact |-> TRUE]
+  [t |-> Mark("BEGIN { x = [1, 2", Chars("}"), " }"),      class |-> "syntax",  exact |-> TRUE],
+  \* illegal characters that are prefixes of legal two-character tokens, also as the last byte of the line
+  [t |-> Mark("BEGIN { x = 1 ", Chars("&"), " 2 }"),       class |-> "syntax",  exact |-> TRUE],
+  [t |-> Mark("BEGIN { x = 1 ", Chars("|"), " 2 }"),       class |-> "syntax",  exact |-> TRUE],
+  [t |-> Mark("BEGIN { x = 1 ", Chars("&"), ""),           class |-> "syntax",  exact |-> TRUE],
+  [t |-> Mark("BEGIN { x = 1 ", Chars("|"), ""),           class |-> "syntax",  exact |-> TRUE],
+  [t |-> Mark("BEGIN { x = 1 ", Chars("@"), ""),           class |-> "syntax",  exact |-> TRUE],
+  [t |-> Mark("BEGIN { x = 1 ", Chars("^"), " 2 }"),       class |-> "syntax",  exact |-> TRUE],
+  [t |-> Mark("BEGIN { x = 1 ", Chars("?"), ""),           class |-> "syntax",  exact |-> TRUE],
+  [t |-> Mark("", Chars("@"), " BEGIN { x = 1 }"),         class |-> "syntax",  exact |-> TRUE],
+  [t |-> Mark("BEGIN { x = 1", Chars("&"), "|2 }"),        class |-> "syntax",  exact |-> TRUE],
+  \* the refused call / match at the call depth limit
+  [t |-> Mark("function r(n) { return ", Chars("r(n + 1)"), " } BEGIN { r(0) }"), class |-> "runtime", exact |-> FALSE],
+  [t |-> Mark("function r(n) { return 1 + ", Chars("r(n + 1)"), " } BEGIN { print 1; r(0) }"), class |-> "runtime", exact |-> FALSE],
+  [t |-> Mark("function m(n) { return ", Chars("match (n) { z => m(z + 1) }"), " } BEGIN { m(0) }"), class |-> "runtime", exact |-> FALSE],
+  \* faults inside methods and builtins, in later rules, in patterns
+  [t |-> Mark("BEGIN { q = [1]; ", Chars("q.push()"), " }"), class |-> "runtime", exact |-> FALSE],
+  [t |-> Mark("BEGIN { q = [[1], 2]; print ", Chars("q.contains(2)"), " }"), class |-> "runtime", exact |-> FALSE],
+  [t |-> Mark("BEGIN { q = 'a'; print q, ", Chars("q.split()"), " }"), class |-> "runtime", exact |-> FALSE],
+  [t |-> Mark("BEGIN { q = 1 } END { print q; ", Chars("q.upper()"), " }"), class |-> "runtime", exact |-> FALSE],
+  [t |-> Mark("BEGIN { q = 0 } ", Chars("1 / q"), " { print }"), class |-> "runtime", exact |-> FALSE],
+  [t |-> Mark("BEGIN { q = 0 } { print ", Chars("$ % q"), " }"), class |-> "runtime", exact |-> FALSE],
+  [t |-> Mark("function g(v) { return v } BEGIN { g(1, ", Chars("2 / 0"), ") }"), class |-> "runtime", exact |-> FALSE],
+  [t |-> Mark("BEGIN { q = [1]; q[0] = q; print ", Chars("json(q)"), " }"), class |-> "runtime", exact |-> FALSE],
+  [t |-> Mark("BEGIN { q = 5; q = 6; ", Chars("q()"), "; q = 7 }"), class |-> "runtime", exact |-> FALSE],
+  [t |-> Mark("BEGIN { q = [1]; q = [2]; for (k in q) { ", Chars("q[0 - 9]"), " } }"), class |-> "runtime", exact |-> FALSE],
+  [t |-> Mark("BEGIN { q = 1; q = 2; ", Chars("q < [1]"), " }"), class |-> "runtime", exact |-> FALSE],
+  [t |-> Mark("BEGIN { q = 1; ", Chars("q + 1 = 2"), " }"), class |-> "syntax", exact |-> FALSE]
 >>
 
 VARIABLES pre, fi, post, lastNL, done
